@@ -152,7 +152,8 @@ async function main () {
       distinct_nontrivial: nontrivial.size,
       rule: driver.rule,
       samples: samples.length ? samples : [built.leaves[0]],
-      exhaustive: built.exhaustive !== false,
+      exhaustive: built.exhaustive !== false && !outcomes.skipped_after_hangs,
+      capped_after_hangs: outcomes.skipped_after_hangs || 0,
       bound: built.bound,
       alphabets: built.alphabets,
       leaves: built.leaves.length,
@@ -172,6 +173,7 @@ async function main () {
   fs.mkdirSync(path.join(ROOT, 'evidence'), { recursive: true })
   fs.writeFileSync(path.join(ROOT, 'evidence', driver.id + '.json'), JSON.stringify(evidence, null, 1))
   console.log(`${driver.id} tier=${tier} leaves=${built.leaves.length} states=${stats.states} transitions=${stats.transitions} evaluations=${evaluations} nontrivial=${nontrivial.size} outcomes=${JSON.stringify(outcomes)} violations(new)=${fresh.length} known=${knownHit.size} raw_violations=${violationCount} wall=${wall.toFixed(1)}s`)
+  if (outcomes.skipped_after_hangs && !fresh.length) { console.log('MACHINERY: exploration was cut short after repeated hangs but no violation was reported'); process.exit(2) }
   process.exit(fresh.length ? 1 : 0)
 }
 
